@@ -884,8 +884,8 @@ def run(ctx, prop):
     ctx.cov["segmentations"] = nseg
     ctx.rule("TLC enumerates message shapes (version x request/response x body kind with part lengths x trailing bytes; "
              "bounds in SmartProtoGen per tier) and decoding targets; per case every composition of the stream when it "
-             "has <= AllMax cut positions, else 0-3 cuts around part boundaries plus byte-by-byte and cut-at-every-"
-             "boundary; payload bytes drawn (seeded) from hostile pools within each wire format's domain. "
+             "has <= AllMax cut positions, else no cut, single cuts around and pairs of cuts on/around part boundaries "
+             "(token ends and ends of 4-byte length prefixes), byte-by-byte and cut-at-every-boundary; payload bytes drawn (seeded) from hostile pools within each wire format's domain. "
              "Non-trivial = a segmentation with a cut strictly inside a part.")
     ctx.assume("messages are well-formed: every byte stream is the output of the real encoder for the shape")
     ctx.assume("v1/v2 argument bytes exclude 0x01 and newline (not representable in the tuple encoding); v3 arguments, "
